@@ -14,7 +14,7 @@
 From Coq Require Import ZArith List Bool PArith FMapPositive.
 From XV Require Import C01.Model C01.Spec C01.ProofsWfb C01.ProofsFrame C01.ProofsUses C01.ProofsOperands
   C01.ProofsRauw C01.ProofsSetOperands C01.ProofsSetSuccessors C01.ProofsDll C01.ProofsOps C01.ProofsBlocks
-  C01.ProofsOpRegions C01.ProofsMove C01.ProofsOpLists C01.ProofsBlockLists C01.ProofsArgs C01.ProofsHistory C01.ProofsDemo.
+  C01.ProofsOpRegions C01.ProofsMove C01.ProofsOpLists C01.ProofsBlockLists C01.ProofsArgs C01.ProofsCreate C01.ProofsInv C01.ProofsHistory C01.ProofsDemo.
 Import ListNotations.
 Local Open Scope Z_scope.
 
@@ -232,16 +232,46 @@ Theorem C01_pr_erase_block_argument_preserves : forall s s' arg safe r,
 Proof. exact pr_erase_block_argument_WF. Qed.
 Print Assumptions C01_pr_erase_block_argument_preserves.
 
-(* every proved call constructor, as a step of the API machine *)
+(* creation.  WF alone does not exclude a live node whose parent field names an id that is not
+   allocated yet; the creation calls therefore need the auxiliary invariant `parents_ok` (parent
+   pointers of live nodes are below the allocation counters), which every proved call preserves *)
+Theorem C01_block_new_preserves : forall s s' ops nargs b,
+  WF s -> parents_ok s -> (forall o, In o ops -> op_live s o) ->
+  block_new ops nargs s = (s', Ok b) -> WF s' /\ parents_ok s'.
+Proof. exact block_new_inv. Qed.
+Print Assumptions C01_block_new_preserves.
+
+Theorem C01_region_new_preserves : forall s s' blocks r,
+  WF s -> parents_ok s -> (forall b, In b blocks -> blk_live s b) ->
+  region_new blocks s = (s', Ok r) -> WF s' /\ parents_ok s'.
+Proof. exact region_new_inv. Qed.
+Print Assumptions C01_region_new_preserves.
+
+Theorem C01_op_create_preserves : forall s s' operands nres succs regions o,
+  WF s -> parents_ok s -> op_create operands nres succs regions s = (s', Ok o) -> WF s' /\ parents_ok s'.
+Proof. exact op_create_inv. Qed.
+Print Assumptions C01_op_create_preserves.
+
+(* the invariant carried through histories, and its initial validity *)
+Theorem C01_inv_init : Inv empty_state.
+Proof. exact empty_Inv. Qed.
+Print Assumptions C01_inv_init.
+
+(* every proved call constructor, as a step of the API machine (Inv s = WF s /\ parents_ok s) *)
 Theorem C01_step_preserves : forall s c p,
-  WF s -> proved_call c = true -> args_live s c -> snd (step s c) = Ok p -> WF (fst (step s c)).
+  Inv s -> proved_call c = true -> args_live s c -> snd (step s c) = Ok p -> Inv (fst (step s c)).
 Proof. exact step_preserves. Qed.
 Print Assumptions C01_step_preserves.
 
-(* histories: every finite sequence of proved calls on live arguments none of which raises keeps WF *)
-Theorem C01_history : forall cs s, WF s -> clean s cs -> WF (run cs s).
+(* histories: every finite sequence of proved calls on live arguments none of which raises keeps
+   the invariant, hence WF; in particular from the empty heap (creation calls included) *)
+Theorem C01_history : forall cs s, Inv s -> clean s cs -> Inv (run cs s).
 Proof. exact history_preserves. Qed.
 Print Assumptions C01_history.
+
+Theorem C01_history_from_empty : forall cs, clean empty_state cs -> WF (run cs empty_state).
+Proof. exact history_from_empty. Qed.
+Print Assumptions C01_history_from_empty.
 
 (* recorded refutations of the code BEFORE the two repairs (known_findings.d/C01.json: fixed) *)
 Theorem C01_setitem_negative_old_refuted :
@@ -289,6 +319,12 @@ Print Assumptions C01_nonvacuous.
 Theorem C01_history_hypothesis_satisfiable : clean demo_state demo_clean.
 Proof. exact demo_clean_ok. Qed.
 Print Assumptions C01_history_hypothesis_satisfiable.
+
+(* 27 calls (18 creation/insertion calls building the demo state + 9 edits) form a clean history
+   from the empty heap *)
+Theorem C01_history_from_empty_satisfiable : clean empty_state (demo_build ++ demo_clean).
+Proof. exact demo_from_empty_ok. Qed.
+Print Assumptions C01_history_from_empty_satisfiable.
 
 Example C01_setitem_negative_fixed :
   snd (operands_setitem 1%positive (-1) 1%positive w_setitem) = Ok tt /\
